@@ -39,6 +39,7 @@ def check(ctx, rep, tier):
     _contained(ctx, rep, cm, f, closure)
     _noninterference(ctx, rep, cm, f, closure)
     _zero(ctx, rep)
+    _zero_passed_through(ctx, rep, cm)
     _from_start(ctx, rep)
     _best(ctx, rep, cm)
     rep.assume("not decided: how long a single uninterruptible step (one regex scan, one rule "
@@ -372,6 +373,77 @@ def _zero(ctx, rep):
             rep.add("zero-means-unlimited", c, tm.where(outer), ok,
                     "" if ok else ("the closure can raise although the timeout is 0" if raises
                                    else "the closure can never raise for a positive timeout"))
+
+
+def _truth_test_of(e, name):
+    """does expression *e* choose a replacement for *name* by testing its truthiness?  ->  the
+    replacement node, or None.  (`name or X`, `name if name else X`, `X if not name else name`)"""
+    def is_name(x):
+        return isinstance(x, ast.Name) and x.id == name
+
+    def is_zeroish(x):
+        return isinstance(x, ast.Constant) and x.value in (0, 0.0, None, False)
+    if isinstance(e, ast.BoolOp) and isinstance(e.op, ast.Or) and is_name(e.values[0]):
+        rest = [v for v in e.values[1:] if not is_zeroish(v)]
+        return rest[0] if rest else None
+    if isinstance(e, ast.IfExp):
+        t = e.test
+        if is_name(t) and is_name(e.body) and not is_zeroish(e.orelse) and not is_name(e.orelse):
+            return e.orelse
+        if isinstance(t, ast.UnaryOp) and isinstance(t.op, ast.Not) and is_name(t.operand) and \
+                is_name(e.orelse) and not is_zeroish(e.body) and not is_name(e.body):
+            return e.body
+    return None
+
+
+def _zero_passed_through(ctx, rep, cm):
+    """timeout 0 means no limit: on the way from the entry points to the timer factory the value
+    0 must stay 0.  A default filled in by a truthiness test (`timeout or DEFAULT`) treats the legal
+    value 0 as absent and turns "no limit" into the default budget."""
+    n_sites = 0
+    for qual, f in sorted(cm.funcs.items()):
+        if "." in qual or not isinstance(f, ast.FunctionDef):
+            continue
+        params = [a.arg for a in f.args.args + f.args.kwonlyargs]
+        if "timeout" not in params:
+            continue
+        n_sites += 1
+        bad = None
+        for n in ast.walk(f):
+            cands = []
+            if isinstance(n, ast.Assign) and any(isinstance(t, ast.Name) and t.id == "timeout" for t in n.targets):
+                cands.append(n.value)
+            elif isinstance(n, ast.AnnAssign) and isinstance(n.target, ast.Name) and n.target.id == "timeout" \
+                    and n.value is not None:
+                cands.append(n.value)
+            elif isinstance(n, ast.NamedExpr) and n.target.id == "timeout":
+                cands.append(n.value)
+            elif isinstance(n, ast.Call):
+                cands.extend(k.value for k in n.keywords if k.arg == "timeout")
+                if e1.callee_name(n.func) in ("timeout_", "timeout") and n.args:
+                    cands.append(n.args[0])
+            elif isinstance(n, ast.If):
+                # if not timeout: timeout = X
+                t = n.test
+                if isinstance(t, ast.UnaryOp) and isinstance(t.op, ast.Not) and isinstance(t.operand, ast.Name) \
+                        and t.operand.id == "timeout":
+                    for st in n.body:
+                        if isinstance(st, ast.Assign) and any(isinstance(x, ast.Name) and x.id == "timeout"
+                                                              for x in st.targets) and \
+                                not (isinstance(st.value, ast.Constant) and st.value.value in (0, 0.0)):
+                            bad = bad or (n, st.value)
+            for e in cands:
+                r = _truth_test_of(e, "timeout")
+                if r is not None:
+                    bad = bad or (n, r)
+        c = "{}::{}::timeout 0 passed through".format(cm.rel, qual)
+        if bad is not None:
+            rep.violated("zero-means-unlimited", c, cm.where(bad[0]),
+                         "the timeout is replaced by {} whenever it is falsy: the legal value 0 (no limit) "
+                         "becomes that budget".format(norm(bad[1])[:60]))
+        else:
+            rep.ok("zero-means-unlimited", c, cm.where(f), "no truthiness-tested replacement of the timeout")
+    rep.count("functions_with_timeout_parameter", n_sites, 2)
 
 
 CLOCKS = ("perf_counter", "monotonic", "time", "process_time")
